@@ -239,13 +239,17 @@ def evaluate(job):
             def run(args):
                 for attempt in range(2):     # test_logging.py is flaky under hypothesis: one retry with a clean example store
                     shutil.rmtree(os.path.join(dst, '.hypothesis'), ignore_errors=True)
-                    t = subprocess.run(['/venv/bin/python', '-m', 'pytest', '-q', '-p', 'no:cacheprovider', '--timeout=900'] + args,
+                    t = subprocess.run(['/venv/bin/python', '-m', 'pytest', '-q', '-rf', '-p', 'no:cacheprovider', '--timeout=900'] + args,
                                        cwd=dst, env=penv, capture_output=True, text=True)
                     last = (t.stdout.strip().splitlines() or ['?'])[-1]
                     good = ' failed' not in last and ' error' not in last and 'passed' in last
-                    if good or 'test_logging' not in t.stdout:
+                    failed = [l.split(' - ')[0][7:] for l in t.stdout.splitlines() if l.startswith('FAILED ')]
+                    # flaky under load: hypothesis deadlines (test_logging, test_molecule_equal, test_compare_dict_diff,
+                    # test_name_moltype) and the 60 s subprocess limit of the integration tests -> one more attempt
+                    if good or attempt or not failed or not all(any(k in f for k in ('test_logging', 'test_integration', 'test_name_moltype',
+                                                                                     'test_molecule_equal', 'test_compare_dict_diff')) for f in failed):
                         break
-                return good, last[:200]
+                return good, (last[:160] + ' | ' + ','.join(f.split('::')[-1] for f in failed[:4]))[:300]
             rel = related_tests(path)
             ok = True
             if rel:
